@@ -54,7 +54,7 @@ struct Ev {
 
 // Exact-size heap copy of an input (so that ASan sees over-reads); NULL for empty if asked.
 struct InBuf {
-    uint8_t *mem; uint8_t *p; size_t n;
+    uint8_t *mem; uint8_t *p; size_t n; size_t maplen;
     InBuf(const bytes_t &v, bool null_if_empty = false, unsigned align = 0);
     ~InBuf();
 private: InBuf(const InBuf &); InBuf &operator=(const InBuf &);
@@ -79,13 +79,15 @@ struct Obj {
     void *mem;       // zero-filled storage, 64-byte aligned
     size_t size;
     void *aux;       // kind-specific (e.g. C++ object pointer)
-    Obj() : mem(0), size(0), aux(0) {}
+    uint8_t *map; size_t maplen;      // the object's own pages (obj_protect)
+    Obj() : mem(0), size(0), aux(0), map(0), maplen(0) {}
 };
 
 Obj &obj_new(int id, const std::string &kind, size_t size);
 Obj &obj_get(int id, const char *kind_prefix = 0);
 bool obj_exists(int id);
 void obj_del(int id);
+void obj_protect(int id, bool readonly);
 void obj_reset_all();
 void obj_check_all();
 
